@@ -109,6 +109,12 @@ def run(ck, rng, tier):
             for nth in nths:
                 lines.append("yscr %d %s %s %d %d %d" % (algo, vf.fmt_mat(X), vf.fmt_mat(Y), vtype, rounds, nth))
                 meta.append(("yscr", algo, (vtype, rounds), nth))
+    # ... and with the discriminant learner (LDA, class labels as response), each thread count run twice
+    Ycls = [[float(i % 2)] for i in range(len(X))]
+    for vtype, rounds, nths in ((1, 4, (1, 1, 2, 2, 4)), (0, 2, (1, 2, 2))):
+        for nth in nths:
+            lines.append("yscr 5 %s %s %d %d %d" % (vf.fmt_mat(X), vf.fmt_mat(Ycls), vtype, rounds, nth))
+            meta.append(("yscr", 5, (vtype, rounds), nth))
     rc, outs, err = vf.run_driver(exe, "\n".join(lines) + "\n", timeout=1200)
     if rc != 0 or len(outs) != len(meta):
         ck.broken("driver drv_c06", "rc=%s cases=%d/%d %s" % (rc, len(outs), len(meta), err[-800:]))
@@ -151,7 +157,10 @@ def run(ck, rng, tier):
         elif mt[0] == "yscr":
             _, algo, cfg, nth = mt
             ck.case(mt)
-            yscr.setdefault((algo, cfg), {})[nth] = o["cc"]
+            prev_ = yscr.setdefault((algo, cfg), {}).get(nth)
+            if prev_ is not None and repr(prev_) != repr(o["cc"]):
+                ck.fail("YScrambling", "run_to_run_nondeterminism", "two runs of y-scrambling (learner %d, %d threads) give different tables" % (algo, nth), {"algo": algo, "threads": nth, "validation": cfg})
+            yscr[(algo, cfg)][nth] = o["cc"]
         else:
             _, algo, nth = mt
             ck.case(mt)
